@@ -2,6 +2,16 @@
 """Imports confirmed seeded changes from /tmp/seeded-out into /verif/seeded/<prop>-<variant>/."""
 import json, os, re, shutil, sys
 SUMMARY = {
+ "C07-E": ("HashSet::clone_from clones only the raw table and no longer copies the source's BuildHasher", "HashSet::clone_from (not clone, not HashMap::clone_from) between sets whose hasher instances carry different state, then any lookup or set relation on the destination"),
+ "C08-E": ("reserve_rehash_inner prefers the in-place rehash for tables of >= 2^20 buckets whenever tombstones exist and len+additional <= bucket_mask", "a table of >= 2^20 buckets with tombstones and reserve(n) with 7/8*buckets < len+n <= buckets: capacity() stays below len+n"),
+ "C11-E": ("ptr::eq identity fast path in HashMap::eq (and HashSet::eq)", "m == m on the very same map object holding a value whose PartialEq is not reflexive"),
+ "C12-E": ("calculate_layout_for: the checked_add of ctrl_align-1 in the padding step became a plain +", "size_of::<T>()*buckets within ctrl_align-1 of usize::MAX: try_reserve panics (overflow checks) or returns Ok with a nonsense table (release)"),
+ "C15-E": ("HashMap::get_many_mut_inner skips the duplicate check when N >= 16 and the N request hashes are pairwise distinct", "N >= 16 requests through a lookup type whose Hash is finer than its Equivalent: two requests with different hashes reach the same entry"),
+ "C17-E": ("reserve_rehash_inner returns Err(CapacityOverflow) directly instead of fallibility.capacity_overflow() when len+additional overflows", "infallible reserve(n) with len+n > usize::MAX: reaches unreachable_unchecked (abort with debug assertions, silently reserves nothing in release)"),
+ "C17-F": ("new_uninitialized returns Err(CapacityOverflow) directly when calculate_layout_for fails", "infallible with_capacity/reserve/shrink_to whose bucket count is representable but whose byte size is not (e.g. 1<<59 16-byte entries)"),
+ "C18-E": ("new Iterator::nth overrides that skip whole groups by BitMask::count() = count_ones()/BITMASK_STRIDE", "portable scanner only: iter().nth(k)/skip/step_by with k >= 1 return wrong elements or None"),
+ "C20-E": ("the element loops reserve(size_hint) again, unbounded, once the cautious preallocation is full", "an input that delivers more than 7168 distinct elements while still claiming a larger length"),
+ "C20-F": ("deserialize_in_place bounds the claim by capacity + 4096 instead of 4096", "a reused place of >= 4096 buckets and an input claiming more than its capacity: the allocation doubles per call"),
  "C01-E": ("clear_no_drop 'sparse clear' for tables >= 2^18 buckets resets only non-empty groups and forgets the mirror control bytes", "a table of >= 262144 buckets cleared/drained while sparse, an occupied bucket among the first 16, keys whose probe wraps around the table end"),
  "C02-E": ("HashTable::iter_hash_mut takes &self instead of &mut self", "type-level: safe code can hold a &T and a &mut T to one slot; no existing program changes behaviour"),
  "C02-F": ("T: Send / T: Sync bounds dropped from the unsafe impls for RawIntoIter and RawDrain", "type-level: non-Send elements can cross threads through into_iter()/drain()"),
